@@ -329,7 +329,7 @@ def rand_filter(rng, corpus, depth):
     if r < 0.85:
         return {"$not": rand_filter(rng, corpus, depth - 1)}
     f = rand_filter(rng, corpus, depth - 1)
-    g = {rng.choice(["$and", "$or"]): [rand_filter(rng, corpus, depth - 1)]}
+    g = {rng.choice(["$and", "$or"]): [rand_filter(rng, corpus, depth - 1) for _ in range(rng.randint(1, 3))]}
     if rng.random() < 0.5:
         g["$not"] = rand_filter(rng, corpus, 0)
     # mix plain keys with logical keys at one level (only if f has no logical keys itself)
